@@ -104,6 +104,7 @@ static int cmdRun(int argc, char **argv) {
                 JP a = JVal::obj();
                 a->set("clock", (int64_t)ar.clock).set("random", (int64_t)ar.random).set("env", (int64_t)ar.env);
                 a->set("sleep", (int64_t)ar.sleep).set("lock", (int64_t)ar.lock).set("lock_contended", (int64_t)ar.lockContended);
+                a->set("non_reentrant_libc", (int64_t)ar.nonReentrant);
                 line->set("ambient_source_calls", a);
             }
         }
